@@ -79,6 +79,16 @@ func c03Scenarios(tier string) []*Scenario {
 			add(tr, "", RPC{Kind: "unary", Client: []string{"I"}, Handler: h})
 			add(tr, "cancel", RPC{Kind: "unary", Client: []string{"I"}, Handler: h})
 		}
+		// two goroutines of one handler set metadata on the same call at once: nothing either of them
+		// set (and was told succeeded) may be lost
+		for _, pair := range [][2][]string{
+			{{"t:c"}, {"t:d"}}, {{"h:a"}, {"h:b"}}, {{"h:a", "t:c"}, {"t:d", "h:b"}}, {{"t:c", "t:e"}, {"t:d"}},
+		} {
+			for _, ret := range []string{"ret:ok", "ret:st:5"} {
+				add(tr, "", RPC{Kind: "unary", Client: []string{"I"}, Handler: cat([]string{"dec", "go"}, pair[0], []string{"join", ret}), Handler2: pair[1]})
+				add(tr, "", RPC{Kind: "bd", Client: []string{"S0", "C", "H", "R*", "T"}, Handler: cat([]string{"r*", "go"}, pair[0], []string{"join", "s0", ret}), Handler2: pair[1]})
+			}
+		}
 	}
 	return out
 }
@@ -93,7 +103,17 @@ func c03Oracle(sc *Scenario, rec *Rec, s *mc.Sched) []mc.Violation {
 	// handler side: setting headers after they were sent fails, before that it succeeds
 	sent := false
 	k := 0
-	for _, op := range cat(rpc.Handler, rpc.Handler2) {
+	script := cat(rpc.Handler, rpc.Handler2)
+	if len(rpc.Handler2) > 0 {
+		// concurrent setters (all before anything is sent): the order of the results is not fixed, each must succeed
+		script = nil
+		for _, r := range rr.SrvHdrRes {
+			if !strings.HasSuffix(r, "=nil") && sc.Cancel == "" {
+				add("header-refused", r+" before the headers were sent")
+			}
+		}
+	}
+	for _, op := range script {
 		switch {
 		case strings.HasPrefix(op, "h:") || strings.HasPrefix(op, "H:"):
 			if k < len(rr.SrvHdrRes) {
